@@ -140,6 +140,7 @@ static void drv_step(struct cmd *c)
 		arr = new linepart::array;
 		if (mode && !strcmp(mode, "set")) arr->set((long) dlen);
 		arr->apply(tr, 0, span<const double>(data, (long) dlen));
+		linepart::array first(*arr);   /* parts of the first dimension (diagnostics) */
 		arr->apply(tr, 1, span<const double>(data2, (long) dlen2));
 		if (!st[0].set(span<const double>(data, (long) dlen)) || !st[1].set(span<const double>(data2, (long) dlen2))) { bad(c, "bad-store"); return; }
 		ok = pl.set(tr, span<const value_store>(st, 2));
@@ -163,6 +164,15 @@ static void drv_step(struct cmd *c)
 		j_arr_close();
 		drv_dbg();
 		j_int("ret", ok);
+		j_arr_open("parts0");
+		{
+			span<const linepart> ps = first.elements();
+			for (const linepart *p = ps.begin(), *e = ps.end(); p < e; ++p) {
+				j_sep();
+				fprintf(drv_out, "[%d,%d,%d,%d]", p->raw, p->usr, p->_cut, p->_trim);
+			}
+		}
+		j_arr_close();
 		drv_end();
 		return;
 	}
